@@ -1181,7 +1181,10 @@ fn do_settle(world: &mut World, step: &Value, progs: &[ProgJ], lane_progs: &BTre
                 let (_, ov) = reval_parts(c.overlap_revalidation.as_ref());
                 let ov = slot_set(&world.events, ov.iter(), false)?;
                 let strand_after = project_slots(&world.prov.replay_worldline_state_at(wl(&child), &world.u0, wt(src_tick + 1)).map_err(|e| format!("{at}: child replay: {e:?}"))?);
-                for sl in src_out.difference(&ov) {
+                // every slot the entry wrote, overlapped or not: since /repo de1c2a1 a clean overlap requires
+                // the parent to hold the strand's value on the overlapped slots as well
+                let _ = &ov;
+                for sl in src_out.iter() {
                     if now_vals[sl] != strand_after[sl] {
                         f.violation("imported_slot_not_strand_value", format!("{at}: import of {child}@{src_tick}: slot {sl} is {} on the parent, {} on the strand", now_vals[sl], strand_after[sl]));
                     }
